@@ -35,7 +35,9 @@ BUCKETS = ("photon", "photon3d", "charge", "clusters", "pixel_add", "pixel", "si
 @st.composite
 def write_plans(draw, n):
     plan = {}
-    for b in draw(st.lists(st.sampled_from(BUCKETS), unique=True, max_size=6)):
+    # cluster tables are kept rare: pyxel re-JITs its binning kernel on every read (~0.1 s each)
+    pool = BUCKETS if draw(st.sampled_from([False] * 6 + [True])) else tuple(b for b in BUCKETS if b != "clusters")
+    for b in draw(st.lists(st.sampled_from(pool), unique=True, max_size=6)):
         if b == "photon3d" and "photon" in plan or b == "photon" and "photon3d" in plan:
             continue
         vals = draw(st.lists(st.one_of(st.none(), st.integers(1, 200)), min_size=n, max_size=n))
@@ -265,7 +267,7 @@ PARTS = {"valid": body_valid, "invalid": body_invalid}
 
 
 def plan(tier):
-    nv, ni = (45, 40) if tier == "quick" else (600, 300)
+    nv, ni = (100, 60) if tier == "quick" else (600, 300)
     return [
         Part(name="valid", kind="gen", strategy=valid_cases, examples=nv),
         Part(name="invalid", kind="gen", strategy=invalid_cases, examples=ni),
